@@ -3,12 +3,22 @@
 From Coq Require Import Lia.
 From WV Require Import Model.Base Generated.Consts Model.Bits Model.Leb128 Model.WaveMem Model.VcdBody
   Spec.TimeSpec Spec.StoreSpec Proofs.BitsProofs Proofs.StoreProofs Proofs.TimeTableProofs Proofs.EncoderProofs
-  Proofs.CanonProofs Proofs.BodyProofs Proofs.VcdStreamProofs Proofs.PrefixProofs Proofs.TokenProofs Proofs.TilingProofs
+  Proofs.CanonProofs Proofs.BodyProofs Proofs.VcdStreamProofs Proofs.PrefixProofs Proofs.TokenProofs Proofs.CutProofs Proofs.TilingProofs
   Proofs.MtProofs.
 Open Scope N_scope.
 
 Lemma body_app A B : body (A ++ B) = body A ++ bytes_of B.
 Proof. unfold body, bytes_of. now rewrite map_app, concat_app. Qed.
+
+(* the table clause of the property from the shape "common table plus at most one entry" *)
+Lemma table_without_last {A} (T0 t1 t2 : list A) : is_prefix T0 t1 -> (length t1 <= length T0 + 1)%nat -> is_prefix T0 t2 ->
+  is_prefix (removelast t1) t2.
+Proof.
+  intros (r & ->) Hl (r2 & ->). rewrite app_length in Hl. destruct r as [|x [|y r]]; [| |cbn in Hl; lia].
+  - rewrite app_nil_r. destruct T0 as [|a T0'] using rev_ind; [exists r2; reflexivity|].
+    rewrite removelast_last. exists ([a] ++ r2). now rewrite <- app_assoc.
+  - rewrite removelast_last. exists r2. reflexivity.
+Qed.
 
 Section Trunc.
 Variable parse_f64 : list byte -> option (list byte).
@@ -79,4 +89,275 @@ Proof.
   exists l1. split; assumption.
 Qed.
 
+(* ------------------------------------------------------------------ any cut *)
+Definition is_optime (op : enc_op) : bool := match op with OpTime _ => true | _ => false end.
+
+Lemma run_ops_split : forall a b e e2, run_ops parse_f64 lz_compress cap e (a ++ b) = Ok e2 ->
+  exists e1, run_ops parse_f64 lz_compress cap e a = Ok e1 /\ run_ops parse_f64 lz_compress cap e1 b = Ok e2.
+Proof.
+  induction a as [|op a IH]; intros b e e2 H; cbn [app WaveMem.run_ops] in *; [eauto|].
+  destruct (run_op parse_f64 lz_compress cap e op) as [e'| |]; try discriminate. cbn [bind] in *. now apply IH.
+Qed.
+
+Lemma recorded_times_only id : forall tms tbl sk, forallb is_optime tms = true -> recorded id tms tbl sk = [].
+Proof.
+  induction tms as [|op tms IH]; intros tbl sk H; [reflexivity|]. cbn [forallb] in H. apply andb_prop in H as [Ho H].
+  destruct op; try discriminate. cbn [recorded]. destruct (last_of tbl) as [p|]; [destruct (N.compare p t)|]; now apply IH.
+Qed.
+
+Lemma recorded_no_times id : forall vals tbl sk, forallb (fun op => negb (is_optime op)) vals = true ->
+  Forall (fun r : N * rec_val => fst r = N.of_nat (length tbl) - 1) (recorded id vals tbl sk).
+Proof.
+  induction vals as [|op vals IH]; intros tbl sk H; [constructor|]. cbn [forallb] in H. apply andb_prop in H as [Ho H].
+  destruct op as [t|i v|i d st|i le]; try discriminate; cbn [recorded].
+  - destruct (sk || negb (Nat.eqb i id)); [now apply IH|]. constructor; [reflexivity|now apply IH].
+  - destruct (sk || negb (Nat.eqb i id)); [now apply IH|]. constructor; [reflexivity|now apply IH].
+  - now apply IH.
+Qed.
+
+Lemma times_no_times : forall vals, forallb (fun op => negb (is_optime op)) vals = true -> times_of vals = [].
+Proof.
+  induction vals as [|op vals IH]; intros H; [reflexivity|]. cbn [forallb] in H. apply andb_prop in H as [Ho H].
+  destruct op; try discriminate; unfold times_of in *; cbn [flat_map app]; now apply IH.
+Qed.
+
+Lemma dedup_by_sub (l : list aentry) (P : aentry -> Prop) : forall prev, Forall P l -> Forall P (dedup_by akey_eqb akey l prev).
+Proof. intros prev H. rewrite Forall_forall in *. intros a Ha. apply H. eapply dedup_by_in; eauto. Qed.
+
+Lemma recorded_idx_ge id : forall ops tbl sk, Forall (fun r : N * rec_val => N.of_nat (length tbl) - 1 <= fst r) (recorded id ops tbl sk).
+Proof.
+  induction ops as [|op ops IH]; intros tbl sk; [constructor|]. destruct op as [t|i v|i d st|i le]; cbn [recorded].
+  - assert (Hgrow : Forall (fun r : N * rec_val => N.of_nat (length tbl) - 1 <= fst r) (recorded id ops (tbl ++ [t]) false)).
+    { eapply Forall_impl; [|apply IH]. intros r Hr. cbn beta in *. rewrite app_length in Hr. cbn [length] in Hr. lia. }
+    destruct (last_of tbl) as [p|]; [destruct (N.compare p t)|]; try apply IH; exact Hgrow.
+  - destruct (sk || negb (Nat.eqb i id)); [apply IH|]. constructor; [cbn [fst]; lia|apply IH].
+  - destruct (sk || negb (Nat.eqb i id)); [apply IH|]. constructor; [cbn [fst]; lia|apply IH].
+  - apply IH.
+Qed.
+
+Lemma accept_shape T t : accept T t = T \/ (accept T t = T ++ [t] /\ match last_of T with Some p => p < t | None => True end).
+Proof. unfold accept. destruct (last_of T) as [p|]; [destruct (N.ltb_spec p t); [right; split; [reflexivity|assumption]|now left]|right; split; [reflexivity|exact I]]. Qed.
+
+(* Store side of property C15 for a cut anywhere: the recording of the truncated file is the recording of the common
+   events `oc` followed by at most the flushed token (time stamps `tms`, then value changes `vals`); the complete file
+   continues the common events with `more`.  Then both reports extend the report of the common events, and everything the
+   truncated file adds lies at its last time *)
+Theorem cut_history_report id bits tpes oc tms vals more e1 e2 b1 t1 b2 t2 :
+  (1 <= bits)%nat -> nth_error tpes id = Some (EncBits bits) ->
+  Forall (op_ok id bits) (oc ++ tms ++ vals) -> Forall (op_ok id bits) (oc ++ more) ->
+  N.of_nat (count_vcd id (oc ++ tms ++ vals)) * (10 + N.of_nat bits) < 4294967264 ->
+  N.of_nat (count_vcd id (oc ++ more)) * (10 + N.of_nat bits) < 4294967264 ->
+  forallb is_optime tms = true -> forallb (fun op => negb (is_optime op)) vals = true ->
+  run_ops parse_f64 lz_compress cap (enc_new tpes) (oc ++ tms ++ vals) = Ok e1 ->
+  run_ops parse_f64 lz_compress cap (enc_new tpes) (oc ++ more) = Ok e2 ->
+  enc_finish lz_compress e1 = Ok (b1, t1) -> enc_finish lz_compress e2 = Ok (b2, t2) ->
+  N.of_nat (length t1) < 4294967296 -> N.of_nat (length t2) < 4294967296 ->
+  (length tms <= 1)%nat -> (tms <> [] -> vals <> [] -> oc = []) ->
+  (forall t, tms = [OpTime t] -> vals = [] -> more = [] \/ exists t' r, more = OpTime t' :: r /\ t <= t') ->
+  exists T0 L0 s1 s2 extra rest2,
+    is_prefix T0 t1 /\ is_prefix T0 t2 /\ (length t1 <= length T0 + length tms)%nat /\
+    load_signal lz_decompress b1 id (EncBits bits) = Ok s1 /\ observe_signal s1 = Ok (L0 ++ extra) /\
+    load_signal lz_decompress b2 id (EncBits bits) = Ok s2 /\ observe_signal s2 = Ok (L0 ++ rest2) /\
+    Forall (fun x : N * value_kind * list byte => fst (fst x) = N.of_nat (length t1) - 1) extra /\
+    Forall (fun x : N * value_kind * list byte => N.of_nat (length t1) - 1 <= fst (fst x)) rest2.
+Proof.
+  intros Hb Htp Hok1 Hok2 Hbud1 Hbud2 Htm Hvl Hr1 Hr2 Hf1 Hf2 Hl1 Hl2 Hlt Himp Hmore.
+  destruct (run_ops_split oc _ _ _ Hr1) as (e0 & Hr0 & _).
+  destruct (time_table_spec parse_f64 lz_compress cap cap_pos tpes oc e0 Hr0) as (b0 & Hf0).
+  destruct (time_table_spec parse_f64 lz_compress cap cap_pos tpes _ e1 Hr1) as (bb1 & Ht1). rewrite Hf1 in Ht1. inversion Ht1; subst t1 bb1.
+  destruct (time_table_spec parse_f64 lz_compress cap cap_pos tpes _ e2 Hr2) as (bb2 & Ht2). rewrite Hf2 in Ht2. inversion Ht2; subst t2 bb2.
+  set (T0 := accepted (times_of oc)) in *.
+  assert (Hp1 : is_prefix T0 (accepted (times_of (oc ++ tms ++ vals)))) by (rewrite times_of_app; apply accepted_app).
+  assert (Hp2 : is_prefix T0 (accepted (times_of (oc ++ more)))) by (rewrite times_of_app; apply accepted_app).
+  assert (Hl0 : N.of_nat (length T0) < 4294967296) by (destruct Hp2 as (r & E); rewrite E, app_length in Hl2; lia).
+  apply Forall_app in Hok1 as Hok1'. destruct Hok1' as [Hok0 _].
+  assert (Hbud0 : N.of_nat (count_vcd id oc) * (10 + N.of_nat bits) < 4294967264) by (rewrite count_vcd_app in Hbud2; lia).
+  destruct (report_list parse_f64 lz_compress lz_decompress lz_ok cap cap_pos cap_u16 id bits tpes oc e0 b0 _ Hb Htp Hok0 Hbud0 Hr0 Hf0 Hl0) as (R0 & s0 & Hd0 & _ & _).
+  destruct (report_list parse_f64 lz_compress lz_decompress lz_ok cap cap_pos cap_u16 id bits tpes _ e1 b1 _ Hb Htp Hok1 Hbud1 Hr1 Hf1 Hl1) as (R1 & s1 & Hd1 & Hload1 & Hobs1).
+  destruct (report_list parse_f64 lz_compress lz_decompress lz_ok cap cap_pos cap_u16 id bits tpes _ e2 b2 _ Hb Htp Hok2 Hbud2 Hr2 Hf2 Hl2) as (R2 & s2 & Hd2 & Hload2 & Hobs2).
+  (* the truncated recording *)
+  rewrite recorded_app_exact in Hd1. destruct (forall2_app_inv_r _ R1 _ _ Hd1) as (R1a & Rx & -> & Ha1 & Hx).
+  assert (R1a = R0) by (eapply forall2_decodes_fun; eauto). subst R1a.
+  rewrite recorded_app_exact, (recorded_times_only id tms _ _ Htm) in Hx. cbn [app] in Hx.
+  (* the complete recording *)
+  rewrite recorded_app_exact in Hd2.
+  destruct (forall2_app_inv_r _ R2 _ _ Hd2) as (R2a & Ry & -> & Ha2 & Hy).
+  assert (R2a = R0) by (eapply forall2_decodes_fun; eauto). subst R2a.
+  unfold dedup in Hobs1, Hobs2.
+  destruct (dedup_by_app akey_eqb akey R0 Rx None) as (p1 & E1). destruct (dedup_by_app akey_eqb akey R0 Ry None) as (p2 & E2).
+  rewrite E1, map_app in Hobs1. rewrite E2, map_app in Hobs2.
+  exists T0, (map rendered (dedup_by akey_eqb akey R0 None)), s1, s2, (map rendered (dedup_by akey_eqb akey Rx p1)), (map rendered (dedup_by akey_eqb akey Ry p2)).
+  split; [exact Hp1|]. split; [exact Hp2|]. split.
+  { rewrite !times_of_app, (times_no_times vals Hvl), app_nil_r. unfold accepted. rewrite fold_left_app. fold (accepted (times_of oc)). fold T0.
+    clear. generalize T0. assert (Hlen : (length (times_of tms) <= length tms)%nat).
+    { induction tms as [|op tms IH]; [cbn; lia|]. destruct op; unfold times_of in *; cbn [flat_map app length]; lia. }
+    revert Hlen. generalize (times_of tms). intros ts. revert tms. induction ts as [|t ts IH]; intros tms Hlen T; cbn [fold_left]; [lia|].
+    destruct tms as [|op tms]; [cbn in Hlen; lia|]. cbn [length] in *. specialize (IH tms ltac:(lia) (accept T t)).
+    assert (length (accept T t) <= S (length T))%nat.
+    { unfold accept. destruct (last_of T) as [p|]; [destruct (p <? t)|]; rewrite ?app_length; cbn [length]; lia. }
+    lia. }
+  split; [exact Hload1|]. split; [exact Hobs1|]. split; [exact Hload2|]. split; [exact Hobs2|].
+  assert (Hacc1 : accepted (times_of (oc ++ tms ++ vals)) = fold_left accept (times_of tms) T0).
+  { rewrite !times_of_app, (times_no_times vals Hvl), app_nil_r. unfold accepted. now rewrite fold_left_app. }
+  split.
+  2:{ (* what the complete file adds lies at or after the truncated file's last time *)
+      apply Forall_map. apply dedup_by_sub.
+      assert (Hidx : Forall (fun r : N * rec_val => N.of_nat (length (accepted (times_of (oc ++ tms ++ vals)))) - 1 <= fst r)
+                            (recorded id more (fold_left accept (times_of oc) []) (skip_after oc [] false))).
+      { fold (accepted (times_of oc)). fold T0. rewrite Hacc1.
+        destruct tms as [|[t| | |] [|op2 tms']]; try (cbn in Hlt; lia); try discriminate.
+        - cbn [times_of flat_map fold_left]. apply recorded_idx_ge.
+        - unfold times_of. cbn [flat_map app fold_left]. destruct (accept_shape T0 t) as [->|[-> Hlast]]; [apply recorded_idx_ge|].
+          rewrite app_length. cbn [length]. replace (N.of_nat (length T0 + 1) - 1) with (N.of_nat (length T0)) by lia.
+          destruct vals as [|vop vals'].
+          + destruct (Hmore t eq_refl eq_refl) as [->|(t' & r & -> & Hle)]; [constructor|]. cbn [recorded].
+            assert (Hgrow : Forall (fun r0 : N * rec_val => N.of_nat (length T0) <= fst r0) (recorded id r (T0 ++ [t']) false)).
+            { eapply Forall_impl; [|apply recorded_idx_ge]. intros r0 Hq0. cbn beta in *. rewrite app_length in Hq0. cbn [length] in Hq0. lia. }
+            destruct (last_of T0) as [p|]; [|exact Hgrow]. destruct (N.compare_spec p t'); try lia. exact Hgrow.
+          + (* a time stamp followed by a change is the implicit time 0 of a file that recorded nothing before *)
+            apply Forall_forall. intros r0 _. pose proof (Himp ltac:(discriminate) ltac:(discriminate)) as Eoc. unfold T0. rewrite Eoc. cbn. apply N.le_0_l. }
+      clear -Hy Hidx. revert Hy Hidx. generalize (recorded id more (fold_left accept (times_of oc) []) (skip_after oc [] false)).
+      intros rec Hy. induction Hy as [|a r Ry rec Ha _ IH]; intros Hidx; [constructor|]. apply Forall_cons_iff in Hidx as [Hr Hidx].
+      constructor; [|now apply IH]. destruct a as [[g l] sy]. destruct Ha as (Hg & _). cbn [rendered fst]. now rewrite Hg. }
+  (* everything added lies at the last time *)
+  apply Forall_map. apply dedup_by_sub.
+  assert (Hidx : Forall (fun r : N * rec_val => fst r = N.of_nat (length (accepted (times_of (oc ++ tms ++ vals)))) - 1)
+                        (recorded id vals (fold_left accept (times_of tms) (fold_left accept (times_of oc) [])) (skip_after tms (fold_left accept (times_of oc) []) (skip_after oc [] false)))).
+  { rewrite Hacc1. unfold T0, accepted. apply recorded_no_times. exact Hvl. }
+  clear -Hx Hidx. revert Hx Hidx. generalize (recorded id vals (fold_left accept (times_of tms) (fold_left accept (times_of oc) [])) (skip_after tms (fold_left accept (times_of oc) []) (skip_after oc [] false))).
+  intros rec Hx. induction Hx as [|a r Rx rec Ha _ IH]; intros Hidx; [constructor|]. apply Forall_cons_iff in Hidx as [Hr Hidx].
+  constructor; [|now apply IH]. destruct a as [[g l] sy]. destruct Ha as (Hg & _). cbn [rendered fst]. now rewrite Hg.
+Qed.
+
+Lemma ops_of_app_strong lookup : forall evs1 evs2 first found ops,
+  ops_of lookup first found (evs1 ++ evs2) = Some ops ->
+  exists o1 found' o2, ops_of lookup first found evs1 = Some o1 /\ ops_of lookup first found' evs2 = Some o2 /\ ops = o1 ++ o2 /\
+    (found = true -> found' = true) /\ (first = true -> found' = false -> o1 = []).
+Proof.
+  induction evs1 as [|ev evs1 IH]; intros evs2 first found ops H; cbn [app] in H.
+  - exists [], found, ops. repeat split; try assumption; auto.
+  - destruct ev as [t|v i]; cbn [ops_of] in *.
+    + destruct (ops_of lookup first true (evs1 ++ evs2)) as [o|] eqn:E; [|discriminate]. inversion H; subst ops.
+      destruct (IH evs2 first true o E) as (o1 & f' & o2 & H1 & H2 & -> & Hm & Hz). rewrite H1. exists (OpTime t :: o1), f', o2.
+      repeat split; try assumption; try reflexivity.
+      * intros _. now apply Hm.
+      * intros _ Hf. rewrite (Hm eq_refl) in Hf. discriminate.
+    + destruct (found || first) eqn:Ef.
+      * destruct (lookup_id lookup i) as [n|]; [|discriminate].
+        destruct (ops_of lookup first true (evs1 ++ evs2)) as [o|] eqn:E; [|discriminate]. inversion H; subst ops.
+        destruct (IH evs2 first true o E) as (o1 & f' & o2 & H1 & H2 & -> & Hm & Hz). rewrite H1. eexists. exists f', o2. split; [reflexivity|]. split; [exact H2|].
+        split; [now rewrite <- app_assoc|]. split.
+        -- intros _. now apply Hm.
+        -- intros _ Hf. rewrite (Hm eq_refl) in Hf. discriminate.
+      * destruct (IH evs2 first false ops H) as (o1 & f' & o2 & H1 & H2 & E & Hm & Hz). exists o1, f', o2. repeat split; try assumption.
+        intros Hfd. subst found. discriminate.
+Qed.
+
+(* the operations of at most one event: at most one time stamp (a real one, or the implicit time 0 in front of the very
+   first change of the file), then at most one change *)
+Lemma ops_of_short lookup first found tail o : (length tail <= 1)%nat -> ops_of lookup first found tail = Some o ->
+  exists tms vals, o = tms ++ vals /\ forallb is_optime tms = true /\ forallb (fun op => negb (is_optime op)) vals = true /\ (length tms <= 1)%nat /\
+    (forall t, tms = [OpTime t] -> vals = [] -> tail = [EvTime t]) /\
+    (tms <> [] -> vals <> [] -> found = false).
+Proof.
+  intros Hl H. destruct tail as [|e [|e' tl]]; [| |cbn in Hl; lia].
+  - injection H as <-. exists [], []. split; [reflexivity|]. split; [reflexivity|]. split; [reflexivity|]. split; [cbn; lia|].
+    split; [intros t0 E; discriminate|intros N1; congruence].
+  - destruct e as [t|v i]; cbn [ops_of] in H.
+    + injection H as <-. exists [OpTime t], []. split; [reflexivity|]. split; [reflexivity|]. split; [reflexivity|]. split; [cbn; lia|].
+      split; [intros t0 E _; now inversion E|intros _ N2; congruence].
+    + destruct (found || first) eqn:Ef.
+      * destruct (lookup_id lookup i) as [n|]; [|discriminate]. injection H as <-.
+        destruct (first && negb found) eqn:Ep.
+        -- exists [OpTime 0], [OpVcd n v]. split; [reflexivity|]. split; [reflexivity|]. split; [reflexivity|]. split; [cbn; lia|].
+           split; [intros t0 _ E; discriminate|]. intros _ _. destruct found; [now rewrite Bool.andb_false_r in Ep|reflexivity].
+        -- exists [], [OpVcd n v]. split; [reflexivity|]. split; [reflexivity|]. split; [reflexivity|]. split; [cbn; lia|].
+           split; [intros t0 E; discriminate|intros N1; congruence].
+      * injection H as <-. exists [], []. split; [reflexivity|]. split; [reflexivity|]. split; [reflexivity|]. split; [cbn; lia|].
+        split; [intros t0 E; discriminate|intros N1; congruence].
+Qed.
+
+(* Property C15 for a cut at ANY byte of the body (single-threaded loader): whenever the truncated body loads, its time
+   table is the table of the common events plus at most one entry, both reports extend the report of the common
+   events, every change the truncated file adds lies at its last time, and every change the complete file adds lies at or
+   after it - so the table without its last entry is a prefix of the complete table and the changes before the last time
+   are the same *)
+Theorem truncated_any_cut debug tpes lookup (a b : list byte) stop id bits e1 e2 b1 t1 b2 t2 :
+  (1 <= bits)%nat -> nth_error tpes id = Some (EncBits bits) ->
+  read_single_stream parse_f64 lz_compress cap debug tpes lookup a stop true = Ok e1 ->
+  read_single_stream parse_f64 lz_compress cap debug tpes lookup (a ++ b) stop true = Ok e2 ->
+  enc_finish lz_compress e1 = Ok (b1, t1) -> enc_finish lz_compress e2 = Ok (b2, t2) ->
+  N.of_nat (length t1) < 4294967296 -> N.of_nat (length t2) < 4294967296 ->
+  (forall x ops, (x = a \/ x = a ++ b) -> ops_of lookup true false (fst (parse_body debug x stop)) = Some ops ->
+               N.of_nat (count_vcd id ops) * (10 + N.of_nat bits) < 4294967264) ->
+  exists T0 L0 s1 s2 extra rest2,
+    is_prefix T0 t1 /\ is_prefix T0 t2 /\ (length t1 <= length T0 + 1)%nat /\
+    load_signal lz_decompress b1 id (EncBits bits) = Ok s1 /\ observe_signal s1 = Ok (L0 ++ extra) /\
+    load_signal lz_decompress b2 id (EncBits bits) = Ok s2 /\ observe_signal s2 = Ok (L0 ++ rest2) /\
+    Forall (fun x : N * value_kind * list byte => fst (fst x) = N.of_nat (length t1) - 1) extra /\
+    Forall (fun x : N * value_kind * list byte => N.of_nat (length t1) - 1 <= fst (fst x)) rest2.
+Proof.
+  intros Hb Htp Hr1 Hr2 Hf1 Hf2 Hl1 Hl2 Hbud.
+  destruct (prefix_events_time debug stop a b) as (common & tail & rest & Hev & Hfull & Htl & Hnext).
+  pose proof (Hbud a) as Hbud1. pose proof (Hbud (a ++ b)) as Hbud2. clear Hbud.
+  unfold read_single_stream in Hr1, Hr2.
+  destruct (parse_body debug a stop) as [evs1 pres1] eqn:Ep1. destruct (parse_body debug (a ++ b) stop) as [evs2 pres2] eqn:Ep2.
+  cbn [fst snd] in *. subst evs1 evs2.
+  destruct (feed_events parse_f64 lz_compress cap lookup (mk_ve (enc_new tpes) true false) (common ++ tail)) as [ve1| |] eqn:Ef1; try discriminate.
+  cbn [bind] in Hr1. destruct pres1; try discriminate. inversion Hr1; subst e1.
+  destruct (feed_events parse_f64 lz_compress cap lookup (mk_ve (enc_new tpes) true false) (common ++ rest)) as [ve2| |] eqn:Ef2; try discriminate.
+  cbn [bind] in Hr2. destruct pres2; try discriminate. inversion Hr2; subst e2.
+  destruct (feed_events_ops parse_f64 lz_compress cap lookup _ _ _ _ _ Ef1) as (ops1 & Ho1 & Hro1).
+  destruct (feed_events_ops parse_f64 lz_compress cap lookup _ _ _ _ _ Ef2) as (ops2 & Ho2 & Hro2).
+  specialize (Hbud1 ops1 (or_introl eq_refl) Ho1). specialize (Hbud2 ops2 (or_intror eq_refl) Ho2).
+  pose proof (ops_of_ok lookup id bits _ _ _ _ Ho1) as Hok1. pose proof (ops_of_ok lookup id bits _ _ _ _ Ho2) as Hok2.
+  destruct (ops_of_app_strong lookup _ _ _ _ _ Ho1) as (oc & f' & otl & Hoc & Hotl & E1 & _ & Hz1). subst ops1.
+  destruct (ops_of_app_strong lookup _ _ _ _ _ Ho2) as (oc' & f2 & more & Hoc' & Hmore & E2 & _ & _). subst ops2.
+  rewrite Hoc in Hoc'. injection Hoc' as <-.
+  destruct (ops_of_short lookup true f' tail otl Htl Hotl) as (tms & vals & -> & Htm & Hvl & Hlt & Htime & Himp).
+  assert (Himp' : tms <> [] -> vals <> [] -> oc = []) by (intros N1 N2; apply Hz1; [reflexivity|now apply Himp]).
+  assert (Hmore' : forall t, tms = [OpTime t] -> vals = [] -> more = [] \/ exists t' r, more = OpTime t' :: r /\ t <= t').
+  { intros t Et Ev. destruct (Hnext t (Htime t Et Ev)) as [->|(v' & r & -> & Hle)].
+    - cbn [ops_of] in Hmore. injection Hmore as <-. now left.
+    - cbn [ops_of] in Hmore. destruct (ops_of lookup true true r) as [o|]; [|discriminate]. injection Hmore as <-. right. eauto. }
+  destruct (cut_history_report id bits tpes oc tms vals more _ _ b1 t1 b2 t2 Hb Htp Hok1 Hok2 Hbud1 Hbud2 Htm Hvl Hro1 Hro2 Hf1 Hf2 Hl1 Hl2 Hlt Himp' Hmore')
+    as (T0 & L0 & s1 & s2 & extra & rest2 & H1 & H2 & H3 & H4 & H5 & H6 & H7 & H8 & H9).
+  exists T0, L0, s1, s2, extra, rest2. repeat split; try assumption. lia.
+Qed.
+
 End Trunc.
+
+(* the changes clause of the property: the entries before the last time are the same *)
+Definition before (k : N) (l : list (N * value_kind * list byte)) : list (N * value_kind * list byte) :=
+  filter (fun x => fst (fst x) <? k) l.
+
+Lemma before_app k a c : before k (a ++ c) = before k a ++ before k c.
+Proof. unfold before. apply filter_app. Qed.
+
+Lemma before_none k l : Forall (fun x : N * value_kind * list byte => k <= fst (fst x)) l -> before k l = [].
+Proof.
+  induction 1 as [|x l Hx _ IH]; [reflexivity|]. unfold before in *. cbn [filter]. destruct (N.ltb_spec (fst (fst x)) k); [lia|exact IH].
+Qed.
+
+Corollary changes_before_last k L0 extra rest2 :
+  Forall (fun x : N * value_kind * list byte => fst (fst x) = k) extra ->
+  Forall (fun x : N * value_kind * list byte => k <= fst (fst x)) rest2 ->
+  before k (L0 ++ extra) = before k (L0 ++ rest2).
+Proof.
+  intros He Hr. rewrite !before_app, (before_none k rest2 Hr), (before_none k extra); [reflexivity|].
+  eapply Forall_impl; [|exact He]. intros x Hx. cbn beta in *. lia.
+Qed.
+
+
+(* `#1 1! #25 0!` cut inside `#25`: the truncated file loads with the table [1; 2] - its last entry is not an entry of the
+   complete table [1; 25], the table without it is a prefix; cut after `0` (a change without identifier code) the model
+   panics as the code does (finding D9) *)
+Example truncated_any_cut_example :
+  let full : list byte := [10; 35;49; 10; 49;33; 10; 35;50;53; 10; 48;33; 10] in
+  let lk : id_lookup := Some [([33], 0%nat)] in
+  let ld (x : list byte) := do e <- read_single_stream (fun _ => None) (fun d => d) 4 true [EncBits 1] lk x 100 true; enc_finish (fun d => d) e in
+  let report (x : list byte) := do bt <- ld x; do s <- load_signal (fun d _ => Some d) (fst bt) 0 (EncBits 1); do o <- observe_signal s; Ok (snd bt, o) in
+  report (firstn 9 full) = Ok ([1; 2], [(0, KBinary, [49])]) /\
+  report full = Ok ([1; 25], [(0, KBinary, [49]); (1, KBinary, [48])]) /\
+  report (firstn 12 full) = Panic.
+Proof. vm_compute. repeat split; reflexivity. Qed.
